@@ -768,7 +768,8 @@ for _r in ('R1-1', 'R1-2', 'R1-3', 'R1-4', 'R2-1', 'R2-2', 'R2-3', 'R2-4', 'R3-1
            'R26-1', 'R26-2', 'R26-3', 'R26-4', 'R27-1', 'R27-2', 'R27-3', 'R27-4', 'R28-1', 'R28-2', 'R28-3', 'R28-4',
            'R29-1', 'R29-2', 'R29-3', 'R29-4',
            'R30-1', 'R30-2', 'R30-3', 'R30-4', 'R31-1', 'R31-2', 'R31-3', 'R31-4', 'R32-1', 'R32-2', 'R32-3', 'R32-4',
-           'R33-1', 'R33-2', 'R33-3', 'R33-4'):
+           'R33-1', 'R33-2', 'R33-3', 'R33-4',
+           'R34-1', 'R34-2', 'R34-3', 'R35-1', 'R35-2', 'R35-3', 'R36-1', 'R36-2', 'R36-3'):
     CORPUS.append({'id': 'S/' + _r + '-silent', 'props': ALL_PROPS, 'rule': None, 'expect': 'silent', 'edits': [],
                    'patch': 'seeded_benign/%s/patch.diff' % _r, 'tolerate_rekeyed': True})
 
@@ -990,3 +991,35 @@ B('c06-gm-unot-row-left', ['C06'], LEX, "    ('right', 'UNOT'),", "    ('left', 
 B('c06-gm-lbracket-row-right', ['C06'], LEX, "    ('left', 'LBRACKET'),", "    ('right', 'LBRACKET'),")
 B('c06-gm-pipe-dot-rows-swapped', ['C06', 'C15'], LEX, "    ('left', 'PIPE'),\n    ('left', 'DOT'),", "    ('left', 'DOT'),\n    ('left', 'PIPE'),")
 B('c16-gm-reserved-while-dropped', ['C16', 'C20', 'C06'], RUL, "                   | WHILE\n", "")
+
+# round 11 (language features and bug fixes that break the property for the new construct or for old programs, S/T).
+# Not reported by any rule: C08-T (min/max drop Decimal zeros through filter(None, ...): value-level behaviour of one builtin),
+# C19-S (optional chaining decides by truthiness; C06 stops with ANALYSIS-ERROR on the unknown suffix operator).
+P('C01-S', 'C01', 'C01.R6'); P('C01-T', 'C01', 'C01.R6')
+P('C02-S', 'C02', 'C02.R4'); P('C02-T', 'C02', 'C02.R3')
+P('C03-S', 'C03', 'C03.R5'); P('C03-T', 'C03', 'C03.R3')
+P('C04-S', 'C04', 'C04.R3'); P('C04-T', 'C04', 'C04.R1')
+P('C05-S', 'C05', 'C05.R3'); P('C05-T', 'C02', 'C02.R4')
+P('C06-S', 'C16', 'C16.R9'); P('C06-T', 'C06', 'C06.R2')
+P('C07-S', 'C16', 'C16.R9'); P('C07-T', 'C14', 'C14.R3')
+P('C08-S', 'C15', 'C15.R1')
+P('C09-S', 'C09', 'C09.R2'); P('C09-T', 'C09', 'C09.R1')
+P('C10-S', 'C18', 'C18.R2'); P('C10-T', 'C10', 'C10.R2')
+P('C11-S', 'C11', 'C11.R2'); P('C11-T', 'C11', 'C11.R1')
+P('C12-S', 'C12', 'C12.R1'); P('C12-T', 'C12', 'C12.R1')
+P('C13-S', 'C02', 'C02.R3'); P('C13-T', 'C07', 'C07.R7')
+P('C14-S', 'C14', 'C14.R1'); P('C14-T', 'C14', 'C14.R5')
+P('C15-S', 'C15', 'C15.R1'); P('C15-T', 'C20', 'C20.R1')
+P('C16-S', 'C06', 'C06.R8'); P('C16-T', 'C16', 'C16.R9')
+P('C17-S', 'C17', 'C17.R7'); P('C17-T', 'C17', 'C17.R9')
+P('C18-S', 'C18', 'C18.R3'); P('C18-T', 'C18', 'C18.R3')
+P('C19-T', 'C19', 'C19.R1')
+P('C20-S', 'C20', 'C20.R2'); P('C20-T', 'C20', 'C20.R2')
+# a new statement form the assignment analysis cannot classify must not re-key the open findings of C03 / C04
+CORPUS.append({'id': 'S/C17-S-silent', 'props': ['C03', 'C04'], 'rule': None, 'expect': 'silent', 'edits': [], 'patch': 'seeded/C17-S/patch.diff'})
+CORPUS.append({'id': 'S/C18-T-silent', 'props': ['C04'], 'rule': None, 'expect': 'silent', 'edits': [], 'patch': 'seeded/C18-T/patch.diff'})
+# campaign 9, the operator `??` (seeded_benign/R37-3): a third lazy operator contradicts the letter of C09 ("every other operand
+# is evaluated exactly once") and is reported there; its declared precedence row defines its level for C06, C07 leaves it undecided
+CORPUS.append({'id': 'S/R37-3-C09', 'props': ['C09'], 'rule': 'C09.R1', 'expect': 'violation', 'edits': [], 'patch': 'seeded_benign/R37-3/patch.diff'})
+CORPUS.append({'id': 'S/R37-3-silent', 'props': ['C06', 'C07', 'C01', 'C15', 'C16'], 'rule': None, 'expect': 'silent', 'edits': [],
+               'patch': 'seeded_benign/R37-3/patch.diff'})
